@@ -23,7 +23,7 @@ def run(tier, seed):
                   "Content-Range, Content-Length and the body bytes are condensed into the same outcome form (a 206 whose Content-Range or bytes "
                   "do not match the stored body, a 416 without 'bytes */size', a short 200 are outcomes of their own, never allowed) and judged "
                   "by the same operator. distinct_nontrivial = distinct header values.",
-                  ["function level: ParseHeaderDirective(...).Range + SliceSize; end to end: plain HTTP, memory backend (quick) / both backends (thorough)",
+                  ["function level: ParseHeaderDirective(...).Range + SliceSize; end to end: plain HTTP and CONNECT tunnel, retry_on_invalid_range off and on, memory backend (quick) / both backends (thorough)",
                    "lenient white space inside numbers and the 'Bytes' unit may be served or refused"])
 
 
